@@ -3,6 +3,6 @@ CONTRACTS = list(_C)
 
 MANIFEST = {
     "category": "proof",
-    "text": "The scalar write/read mapper pairs are verified as inverse pairs per value kind (None, bool, int, real, +inf, -inf, string, identifier), with the exception set stated as a precondition: str2inf(inf2str(v)) == v, str2none(none2str(v)) == v unless v is the empty string, str2uuid(as_str_if_uuid(u)) == u. The full write_ui_json -> read_ui_json pipeline over template forms, value corpus and validation options (values and enabled states) is a bounded stand-in on real files and workspaces. set_enabled and flatten are verified over concrete-shape ui.json dictionaries with symbolic member values (set_enabled: 1792 shapes x target parameter, every form either takes the new state - optional target, or member of the group whose switch is the target - or is left alone; flatten: None iff disabled, value or property by isValue, plain members pass through).",
+    "text": "The scalar write/read mapper pairs are verified as inverse pairs per value kind (None, bool, int, real, +inf, -inf, string, identifier), with the exception set stated as a precondition: str2inf(inf2str(v)) == v, str2none(none2str(v)) == v unless v is the empty string, str2uuid(as_str_if_uuid(u)) == u. The full write_ui_json -> read_ui_json pipeline over template forms, value corpus and validation options (values and enabled states) is a bounded stand-in on real files and workspaces. set_enabled and flatten are verified over concrete-shape ui.json dictionaries with symbolic member values (set_enabled: 1792 shapes x target parameter, every form either takes the new state - optional target, or member of the group whose switch is the target - or is left alone; flatten: None iff disabled, value or property by isValue, plain members pass through). Round-5 additions: numpy infinities (np.float64('inf'), np.log(0.)) are written as text like Python ones (inf2str postcondition) and survive the file round trip.",
     "note": "uuid parsing/printing are uninterpreted partial inverses (T-py, audited); json text, templates, promote/demote and update_ui_values are covered only by the bounded round trip; the shape bound of the set_enabled/flatten proofs is 2-3 forms; numbers whose decimal text is uuid-shaped and strings that look like another kind are outside the claim (stated exception set).",
 }
